@@ -3,6 +3,7 @@
 package impl
 
 import (
+	"unicode"
 	"unicode/utf8"
 
 	dtpb "github.com/google/fhir/go/proto/google/fhir/proto/r4/core/datatypes_go_proto"
@@ -267,5 +268,26 @@ func VerifHarness_C14_SupplementaryCharacters() {
 	idx, err4 := IndexOf(verifCtx(), verifReceiver(s), verifLit(system.String(ch)))
 	i, okI := verifInt(idx)
 	verifrt.Assert(err4 == nil && okI && i == int64(len(head)), "indexof-counts-characters")
+	verifrt.Reach("end")
+}
+
+// upper()/lower() on letters beyond ASCII: the reference model maps each character with the Unicode simple case
+// mapping (unicode.ToUpper / ToLower per character), whether or not the text has ASCII letters too. Texts from a menu
+// (Latin-1, Latin Extended, Greek, Cyrillic, with and without ASCII around them); decided by execution over the menu.
+func VerifHarness_C14_CaseBeyondASCII() {
+	menu := []string{"é", "É", "École", "école", "123 é", "x é", "Ärzte", "straße", "ΑΒΓ", "αβγ", "Привет", "ПРИВЕТ", "привет", "ǆ", "Émond-Ñu", "日本"}
+	s := menu[verifrt.Choose("text", len(menu))]
+	up, e2 := Upper(verifCtx(), verifReceiver(s))
+	lo, e3 := Lower(verifCtx(), verifReceiver(s))
+	us, ok2 := verifStr(up)
+	ls, ok3 := verifStr(lo)
+	verifrt.Assert(e2 == nil && e3 == nil && ok2 && ok3, "upper-lower-return-strings")
+	wantUp, wantLo := "", ""
+	for _, r := range s {
+		wantUp += string(unicode.ToUpper(r))
+		wantLo += string(unicode.ToLower(r))
+	}
+	verifrt.Assert(us == wantUp, "upper-maps-every-character")
+	verifrt.Assert(ls == wantLo, "lower-maps-every-character")
 	verifrt.Reach("end")
 }
